@@ -145,9 +145,8 @@ PROPS = {
     },
     "C07": {
         "lean": ["FsnVerif.Props.C07"],
-        "lean_support": ["FsnVerif.Proofs.ProtoLemmas", "FsnVerif.Proofs.ProtoTables", "FsnVerif.Proofs.ProtoTables1", "FsnVerif.Proofs.ProtoTables1Defs", "FsnVerif.Proofs.ProtoTables1a", "FsnVerif.Proofs.ProtoTables1b", "FsnVerif.Proofs.ProtoTables1c", "FsnVerif.Proofs.ProtoTables1d", "FsnVerif.Proofs.ProtoTables2", "FsnVerif.Proofs.ProtoTables3", "FsnVerif.Proofs.SkeletonTie", "FsnVerif.Proofs.SkeletonTieDefs", "FsnVerif.Proofs.SkeletonTieFns", "FsnVerif.Model.Proto", "FsnVerif.Expected.Skeleton"],
+        "lean_support": ["FsnVerif.Proofs.ProtoLemmas", "FsnVerif.Proofs.ProtoTables", "FsnVerif.Proofs.ProtoTables1", "FsnVerif.Proofs.ProtoTables1Defs", "FsnVerif.Proofs.ProtoTables1a", "FsnVerif.Proofs.ProtoTables1b", "FsnVerif.Proofs.ProtoTables1c", "FsnVerif.Proofs.ProtoTables1d", "FsnVerif.Proofs.ProtoTables2", "FsnVerif.Proofs.ProtoTables3", "FsnVerif.Proofs.SkeletonTie", "FsnVerif.Proofs.SkeletonTieDefs", "FsnVerif.Proofs.SkeletonTieFns", "FsnVerif.Model.Proto", "FsnVerif.Expected.Skeleton", "FsnVerif.Props.C12", "FsnVerif.Proofs.InvLemmas", "FsnVerif.Model.Inotify"],
         "stages": [{"name": "conc", "cmd": "conc", "what": "C07"}],
-        "lean_extra": ["FsnVerif.Props.C12", "FsnVerif.Proofs.InvLemmas", "FsnVerif.Model.Inotify"],
         "rule": CONC_RULE + "; C07: 2-4 goroutines x 4 calls of Add/Remove/WatchList on 3 directories while another goroutine creates and deletes files in them; every recorded history is checked for linearizability against the set specification (porcupine); Add/Remove racing Close must return nil/ErrClosed/ErrNonExistentWatch only",
         "assumptions": ["Go memory model / race detector coverage are not Lean objects: data-race freedom of the binary is evidenced, not proved"],
     },
